@@ -353,6 +353,12 @@ def run(ck: Check):
         scs.append(gen_cancelled_futures(rng, 300000 + i))
     for i in range(ck.n(40, 400)):
         scs.append(gen_rejected_records(rng, 400000 + i))
+    rng_old = random.Random(ck.seed * 7121 + 202)
+    for i in range(ck.n(30, 300)):
+        sc = gen(rng_old, 700000 + i)
+        if "api_ranges" not in sc:
+            prodsim.old_broker(sc, rng_old)
+        scs.append(sc)
     results = prodsim.run_scenarios(scs, timeout=ck.n(600, 2400))
     nbad = 0
     hist = {"acks0": 0, "idempotent": 0, "produce_version_cap": {}, "log_append_time": 0, "flush": 0, "failed_runs": 0}
